@@ -538,3 +538,68 @@ Definition c_insts (c : case) : list (list slot) :=
 Definition init_state (c : case) : state :=
   {| st_insts := map (fun sl => {| i_slots := sl; i_subs := [] |}) (c_insts c); st_dead := [] |}.
 Definition run_case (c : case) : list (list Z) := run_ops gen_sig_tables (init_state c) (c_ops c).
+
+(* ------------------------------------------------------------------ re-entrancy (outside the property's quantifier)
+   What _mesa_notify does when the handlers it calls themselves observe / unobserve on the (name, type) being
+   notified.  The loop `for observer in observers` walks the list OBJECT that was in subscribers[name][type] when the
+   notification started: observe() appends to the object currently in the registry (the walked one until an
+   unobserve() has replaced it by a new list), so a handler subscribed during the round is reached by the same loop;
+   unobserve() stores a new filtered list in the registry and the loop goes on over the old object; at the end
+   `self.subscribers[name][type] = active_observers` overwrites whatever the registry holds.  Recorded, not claimed. *)
+Inductive haction := HNop | HObserve (h : Z) | HUnobserve (h : Z).
+Record rstate := { r_iter : list Z;      (* the list object being walked *)
+                   r_reg : list Z;       (* the list currently in subscribers[name][type] *)
+                   r_same : bool;        (* are they the same object *)
+                   r_active : list Z;    (* active_observers *)
+                   r_calls : list Z }.   (* handlers called, in order *)
+Fixpoint script_get (sc : list (Z * haction)) (h : Z) : haction :=
+  match sc with [] => HNop | (k, a) :: t => if h =? k then a else script_get t h end.
+Definition run_action (dead : list Z) (a : haction) (st : rstate) : rstate :=
+  match a with
+  | HNop => st
+  | HObserve h' =>
+      if r_same st
+      then {| r_iter := r_iter st ++ [h']; r_reg := r_reg st ++ [h']; r_same := true; r_active := r_active st; r_calls := r_calls st |}
+      else {| r_iter := r_iter st; r_reg := r_reg st ++ [h']; r_same := false; r_active := r_active st; r_calls := r_calls st |}
+  | HUnobserve h' =>
+      {| r_iter := r_iter st; r_reg := filter (fun x => alive dead x && negb (x =? h')) (r_reg st); r_same := false;
+         r_active := r_active st; r_calls := r_calls st |}
+  end.
+Fixpoint notify_re (fuel : nat) (dead : list Z) (sc : list (Z * haction)) (pos : nat) (st : rstate) : option rstate :=
+  match fuel with
+  | O => None
+  | S f =>
+      match nth_error (r_iter st) pos with
+      | None => Some st
+      | Some h =>
+          if alive dead h then
+            let st1 := {| r_iter := r_iter st; r_reg := r_reg st; r_same := r_same st; r_active := r_active st;
+                          r_calls := r_calls st ++ [h] |} in
+            let st2 := run_action dead (script_get sc h) st1 in
+            notify_re f dead sc (S pos)
+              {| r_iter := r_iter st2; r_reg := r_reg st2; r_same := r_same st2; r_active := r_active st2 ++ [h];
+                 r_calls := r_calls st2 |}
+          else notify_re f dead sc (S pos) st
+      end
+  end.
+(* one assignment to the observable: the registry before -> (handlers called, registry after) *)
+Definition round_re (sc : list (Z * haction)) (reg : list Z) : option (list Z * list Z) :=
+  match notify_re 200 [] sc 0 {| r_iter := reg; r_reg := reg; r_same := true; r_active := []; r_calls := [] |} with
+  | Some st => Some (r_calls st, r_active st)
+  | None => None
+  end.
+Record rcase := { rc_subs : list Z; rc_script : list (Z * haction); rc_rounds : nat }.
+Fixpoint run_rounds (sc : list (Z * haction)) (n : nat) (reg : list Z) : list (list Z) :=
+  match n with
+  | O => []
+  | S m =>
+      match round_re sc reg with
+      | Some (calls, reg') => (calls ++ [-7] ++ reg') :: run_rounds sc m reg'
+      | None => [[-3]]
+      end
+  end.
+Definition run_rcase (c : rcase) : list (list Z) := run_rounds (rc_script c) (rc_rounds c) (rc_subs c).
+
+Inductive anycase := Plain (c : case) | Reentrant (c : rcase).
+Definition run_any (a : anycase) : list (list Z) :=
+  match a with Plain c => run_case c | Reentrant c => run_rcase c end.
